@@ -630,6 +630,53 @@ func checkC19(c *Ctx) *report.Result {
 		}
 		r.Ob("S-length", n > 0, "stores to the length counters examined over every run-phase entry", "", fmt.Sprintf("%d stores", n))
 	}
+	// who may store a status flag: the channel's NRx2/NR30 handler (DAC off), its NRx4 handler (trigger), the NR52
+	// handler (power off), its length clock and - channel 1 - the sweep step and the NR10 handler.  Not the envelope, the per-clock
+	// routine, the sampler or anything else: a volume that fades to zero leaves the channel on.
+	r.Rule("S-off", "a channel status flag is stored only under the channel's NRx2/NR30 and NRx4 handlers, the NR52 handler, its length clock and (channel 1) the sweep step and the NR10 handler (leaving negate mode), over every run-phase entry: an envelope that reaches volume 0 does not turn the channel off")
+	{
+		allowed := [4]map[string]bool{}
+		for k := 0; k < 4; k++ {
+			allowed[k] = map[string]bool{}
+			for _, a := range []int{nrx2[k], nrx4[k], 0xFF26} {
+				for _, f := range c.evalDecoder(true, a, a, nil, nil).Direct {
+					allowed[k][fnName(f)] = true
+				}
+			}
+			if lenFns[k+1] != nil {
+				allowed[k][fnName(lenFns[k+1])] = true
+			}
+		}
+		if extra := minusCalls(stepCalls[2], stepCalls[0]); len(extra) == 1 {
+			allowed[0][fnName(extra[0].Fn)] = true
+		}
+		// (documented obscure behaviour: clearing the negate bit of NR10 after a calculation in negate mode turns channel 1 off)
+		for _, f := range c.evalDecoder(true, 0xFF10, 0xFF10, nil, nil).Direct {
+			allowed[0][fnName(f)] = true
+		}
+		viol := map[string]string{}
+		n := 0
+		c.evalAllEntries(ai.Hooks{
+			Store: func(_ *ai.State, at ssa.Instruction, p *ai.Ptr, keys []ai.CellKey, _ ai.Value, _ bool) {
+				for _, key := range keys {
+					for k := 0; k < 4; k++ {
+						if key.Obj != chObjs[k].ID || key.Path != enPath[k] {
+							continue
+						}
+						n++
+						if !c.onStack(allowed[k]) {
+							viol[fmt.Sprintf("channel %d status flag stored by %s", k+1, fnName(outerFn(at.Parent())))] = c.pos(at)
+						}
+					}
+				}
+			},
+		}, func(*world.Entry, *ai.State) {})
+		for k, pos := range viol {
+			r.Ob("S-off", false, k, pos, "the status changes only at a trigger, a DAC-off write, power-off, length expiry and sweep overflow")
+		}
+		r.Ob("S-off", n >= 8, "stores to the status flags examined over every run-phase entry", "", fmt.Sprintf("%d stores", n))
+		r.Instances["S-off"] += n
+	}
 	// sibling agreement of the NRx4 tables
 	if t, ok := r.Extra["nrx4_tables"].(map[string][]string); ok {
 		ref := t["channel 1"]
